@@ -118,6 +118,7 @@ def run_property(prop, tier="quick", repo_root="/repo", seed=0, only=None, verbo
         else:
             all_obls += r.obligations
     # extra property-level checks (ground facts, scans) supplied by sidecar python modules
+    os.environ["VERIF_TIER_EFFECTIVE"] = tier
     extra = run_extra_checks(prop, repo, spec, gnums, repo_root)
 
     results = solve.discharge(all_obls, timeout_ms)
